@@ -142,7 +142,7 @@ fn visit(prog: usize, h: &[u16]) -> Visit {
 
 pub fn run(ctx: &Ctx) -> Report {
     let mut rep = Report::new("explicit-state BFS, for each of 4 programs (nested calls 2 deep + loop + PUTS trap + HALT; a store loop for memory breakpoints; the first program under real traps, halting through the OS's MCR write; a straight line), over histories of 21 operations: step_in, step_over, step_out, run_with_limit(0,1,2,5,u64::MAX), the host setting instructions_run to u64::MAX-1 or 0 (documented as resettable), run, run_while(R0 != 2), insert/remove a PC, a register (R0 == 2) and a memory (M != 0) breakpoint, arm an asynchronous MCR clear 0/1/3 polls ahead. After every operation the real simulator is compared with a twin that is driven ONLY by step_in under the documented stop rules (halt, error, breakpoint after an executed step, step limit, tripwire, frame depth, MCR cleared): result, registers, PC, PSR, saved SP, memory, frame depth, instruction count, output, hit_halt/hit_breakpoint, MCR. Any split of a run into segments therefore equals the unbroken run. non-trivial = states at depth >= 1");
-    let depth = ctx.pick(5usize, 8usize);
+    let depth = ctx.pick(5usize, 10usize);
     let mut total_states = 0u64; let mut total_tr = 0u64; let mut frontier_total = 0u64;
     for prog in 0..progs().len() {
         let (states, transitions, frontier, per_depth, capped) = bfs_hist(ctx, &mut rep.acc, OPS.len(), depth, &|h| format!("{prog}:{}", h.iter().map(|x| x.to_string()).collect::<Vec<_>>().join(",")), |h| visit(prog, h));
